@@ -37,19 +37,27 @@ def ascending : List Nat → Bool
   | _ => true
 
 /-- dict keys: a bare number `n` = the one-letter string `chr(97+n)`; `(ki n)` int; `(kb c…)` bytes; `kn` None;
-`(kt n…)` tuple of ints -/
+`(kt f…)` tuple whose fields are ints `n` or one-letter strings `(ks c)` -/
+def kfield? : Sexp → Option KField
+  | .list [.atom "ks", c] => (nat? c).map .str
+  | x => (int? x).map .int
 def key? : Sexp → Option Key
   | .atom "kn" => some .none
   | .list [.atom "ki", n] => (int? n).map .int
   | .list (.atom "kb" :: cs) => (cs.mapM nat?).map .bytes
-  | .list (.atom "kt" :: ns) => (ns.mapM int?).map .tup
+  | .list (.atom "kt" :: ns) => (ns.mapM kfield?).map .tup
   | x => (nat? x).map .str
 
-def lexLtI : List Int → List Int → Bool
+def fieldLt : KField → KField → Bool
+  | .int a, .int b => a < b
+  | .str a, .str b => a < b
+  | .int _, .str _ => true
+  | .str _, .int _ => false
+def lexLtI : List KField → List KField → Bool
   | [], [] => false
   | [], _ :: _ => true
   | _ :: _, [] => false
-  | a :: as, b :: bs => a < b || (a == b && lexLtI as bs)
+  | a :: as, b :: bs => fieldLt a b || (a == b && lexLtI as bs)
 
 /-- the canonical order in which the harness builds dicts (None, ints, strs, bytes, tuples), so that equal
 dicts are structurally equal values -/
